@@ -33,8 +33,8 @@ SCOPE = {
              "start graphs of <=3 nodes (5 hand-built incl. empty, self loop, double edge, cycle, 2 attackers, adjacent prunable nodes; 2 generated "
              "from a tiny language + model with 1-2 model attackers); + 3000 seeded random histories of 4-12 operations on "
              "generated graphs of 3 and 14 nodes",
-    "thorough": "as quick; + every applicable history of 4 operations from the two smallest hand-built and one generated "
-                "start, a seeded 12% sample of the 4-operation histories from the other starts; + 60000 random histories "
+    "thorough": "as quick; + every applicable history of 4 operations from the two smallest hand-built starts (467116), "
+                "a seeded 6% sample of the 5.8 million 4-operation histories from the other five starts; + 60000 random histories "
                 "of 4-16 operations",
 }
 EXHAUSTIVE = {"quick": True, "thorough": False}
@@ -214,9 +214,9 @@ def cases(tier, seed):
         yield {"start": st, "ops": _random_history(rnd, st, rnd.randint(4, 12 if tier == "quick" else 16))}
     if tier == "thorough":
         for st in short:
-            full = st in ("H0", "H1", "G1")
+            full = st in ("H0", "H1")
             for h in _histories(st, 4):
-                if len(h) == 4 and (full or rnd.random() < 0.12):
+                if len(h) == 4 and (full or rnd.random() < 0.06):
                     yield {"start": st, "ops": h}
 
 
